@@ -5,7 +5,7 @@ import json
 import os
 import sys
 
-MODULES = ["t_common"]
+MODULES = ["t_common", "t_itersites"]
 
 
 def main(repo="/repo", out="/verif/coq/Gen"):
